@@ -364,7 +364,11 @@ func rcheck(t *testing.T, name string, n int, prop func(*rapid.T)) {
 		defer func() {
 			if t.Failed() && V.harnessErr == "" {
 				V.mu.Lock()
-				V.violations = append(V.violations, vFail{Test: t.Name(), Message: V.lastMsg, Case: V.lastCase})
+				msg := V.lastMsg
+				if msg == "" {
+					msg = "the property failed without a harness message (product panic inside the case, or a failure rapid could not reproduce: see log_tail)"
+				}
+				V.violations = append(V.violations, vFail{Test: t.Name(), Message: msg, Case: V.lastCase})
 				V.mu.Unlock()
 			}
 		}()
